@@ -8,7 +8,7 @@
    carry the code of the outcome, and each relay step forwards what it read. *)
 From Coq Require Import List ZArith Lia Bool.
 From RecordUpdate Require Import RecordSet.
-From Sim Require Import Map Variant Current Kernel Queue Net Pcap HttpParse SimState Sim Apps SocksProofs.
+From Sim Require Import Map Variant Current Kernel Queue Net Pcap HttpParse SimState Sim Apps SocksProofs RxProofs ComposeProofs.
 Import ListNotations.
 Import RecordSetNotations.
 Local Open Scope Z_scope.
@@ -168,3 +168,16 @@ Example C17_example_connect_by_address :
   socks_request_decide current 4 [4; 1; 35; 40; 10; 0; 0; 3; 0] =
     SDispatch 1 {| e_addr := {| a_v6 := false; a_val := 167772163 |}; e_port := 9000 |}.
 Proof. vm_compute. repeat split; reflexivity. Qed.
+
+(* ---- composition with the concrete receiver (Proofs/ComposeProofs.v): whatever the
+   network does to the sender's segments and whatever the sizes of the relay's reads ---- *)
+Theorem C17_relay_forwards_a_prefix_of_the_stream_unchanged :
+  forall sent evs, wf_sent sent -> Forall (ok_ev sent) evs ->
+  (forall data, In data (rx_reads evs rx_init) -> forall cx srv c w n d,
+     socks_conn_step cx srv c 13 (EC_OK :: n :: n :: d :: data) w
+       = start_write_all cx (so_server srv c) data 65536 (hid_so srv c 14) w /\
+     socks_conn_step cx srv c 15 (EC_OK :: n :: n :: d :: data) w
+       = start_write_all cx (so_client srv c) data 65536 (hid_so srv c 16) w)
+  /\ exists rest, cstream sent = concat (rx_reads evs rx_init) ++ rest.
+Proof. exact socks_relay_forwards_a_prefix_of_the_stream. Qed.
+Print Assumptions C17_relay_forwards_a_prefix_of_the_stream_unchanged.
